@@ -14,6 +14,20 @@ class DummyLock(object):
         pass
 
 
+def _stop_processes(process_list):
+    """
+    Terminate (and wait for) every process in process_list that
+    is still running. Called when one worker has failed, so that
+    the surviving workers do not keep writing to scratch space
+    that the caller is about to clean up.
+    """
+    for process in process_list:
+        if process.is_alive():
+            process.terminate()
+    for process in process_list:
+        process.join()
+
+
 def winnow_process_list(
         process_list):
     """
@@ -34,6 +48,7 @@ def winnow_process_list(
                 verif_hooks.emit('Poll', worker_pid=process_list[ii].pid,
                                  code=process_list[ii].exitcode)
             if process_list[ii].exitcode != 0:
+                _stop_processes(process_list)
                 raise RuntimeError(
                     "One of the processes exited with code "
                     f"{process_list[ii].exitcode}")
@@ -55,6 +70,7 @@ def winnow_process_dict(
                 verif_hooks.emit('Poll', worker_pid=process_dict[k].pid,
                                  code=process_dict[k].exitcode, key=k)
             if process_dict[k].exitcode != 0:
+                _stop_processes(list(process_dict.values()))
                 raise RuntimeError(
                     f"One of the processes (key={k}) exited with code "
                     f"{process_dict[k].exitcode}")
